@@ -305,6 +305,11 @@ def run_frontend(fe, tb: Table, config_dict, scratch: Scratch, opts=None):
             st = NetcdfStream(to_netcdf_epoch(tb, scratch))
         else:
             raise KeyError(fe)
+        if opts.get("add_later") is not None:
+            # history: run once, then Config.add() more calls, then run again (the second run is the one judged)
+            list(st.run(cfg))
+            LOG.clear()
+            cfg.add(Config(opts["add_later"]))
         return list(st.run(cfg)), None
     except Exception as e:  # noqa: BLE001
         return None, e
